@@ -398,12 +398,17 @@ class PDFStream(PDFObject):
                     columns = int_value(params.get("Columns", 1))
                     raw_bits_per_component = params.get("BitsPerComponent", 8)
                     bitspercomponent = int_value(raw_bits_per_component)
-                    data = apply_tiff_predictor(
-                        colors,
-                        columns,
-                        bitspercomponent,
-                        data,
-                    )
+                    try:
+                        data = apply_tiff_predictor(
+                            colors,
+                            columns,
+                            bitspercomponent,
+                            data,
+                        )
+                    except IndexError:
+                        raise PDFValueError(
+                            "TIFF predictor: the data ends inside a row"
+                        )
                 elif pred >= 10:
                     # PNG predictor
                     colors = int_value(params.get("Colors", 1))
